@@ -379,6 +379,8 @@ class Engine:
                 nm = "%s.%s%d" % (v.name, (var + ".") if var else "", i)
                 return self.mk_sym(ty, nm)
             if isinstance(v, BoxV):
+                if re.match(r"^(std::ptr::|core::ptr::)?(Unique|NonNull)<", str(ty).strip()):
+                    return v        # Box -> Unique -> NonNull: the pointer wrappers of the box itself (`*boxed` goes through them)
                 return self._child(v.inner, step)
             if isinstance(v, FnV):
                 return v.captures[i]
@@ -952,6 +954,8 @@ class Engine:
         if kind.startswith("PointerCoercion") or kind in ("PtrToPtr", "FnPtrToPtr"):
             return a
         if kind == "Transmute":
+            if isinstance(a, BoxV) and dst.startswith("*"):
+                return a            # NonNull<T> -> *const T of a box: still the box
             if isinstance(a, Adt) and a.ty == "VecLit":
                 return a.fields[0]      # the raw pointer to the literal's storage
             if z3.is_bv(a):
